@@ -15,7 +15,7 @@ The monitor's state is history: `monAfter_truth` (its copies of the ground truth
 `owed_history` (a debt is owed in the sense of the property: a change to be announced, the same session
 since, no notification of the kind since, entitled at every snapshot since), `fans_history`.
 
-Covered: 34 of the 40 clause constructors (all that decide the seeded changes C18-m1…m8 and the findings F7,
+Covered: 35 of the 41 clause constructors (all that decide the seeded changes C18-m1…m8 and the findings F7,
 F19, F35).  Not covered (`Covered c = False`): `twice` and `staleCall` are proved for one of their two
 sources each (`sound_twice_partial`: a complete fan-out; `sound_staleCall_partial`: a call answered at
 once) — the other source needs the history of a held fan-out's `served` list resp. of `starts`; likewise
@@ -75,7 +75,7 @@ def P_of : Clause → Trace → Prop
   | .closedMentioned => P_closedForgotten
   | .ackTableWindow | .f19Registered | .ackedMissing => P_ackedServed
   | .refusedLeft | .foreignEntry => P_noForeign
-  | .endMidFan | .endSkippedAck | .endF19 | .endSkipped | .endNoLost => P_notified
+  | .endMixedRemove | .endMidFan | .endSkippedAck | .endF19 | .endSkipped | .endNoLost => P_notified
 
 /-- **monitor_sound (partial: the covered clauses).**  Whenever the monitor reports a covered clause on the record that
 extends a trace, the corresponding clause of the property is false of the extended trace. -/
@@ -123,6 +123,7 @@ theorem monitor_sound_partial (tr : Trace) (r : Rec) (c : Clause) (hc : Covered 
   | ackedMissing => exact sound_ackedMissing tr r h
   | refusedLeft => exact sound_refusedLeft tr r h
   | foreignEntry => exact sound_foreignEntry tr r h
+  | endMixedRemove => exact sound_endMixedRemove tr r h
   | endMidFan => exact sound_endMidFan tr r h
   | endSkippedAck => exact sound_endSkippedAck tr r h
   | endF19 => exact sound_endF19 tr r h
